@@ -181,7 +181,7 @@ def _run_atheris(shard, ctx):
                     f.write(blob)
         budget = max(30, int(ctx.deadline - __import__("time").time()) - 20)
         cmd = [sys.executable, "-B", os.path.join(env.VERIF_DIR, "fuzz", "c04_target.py"), work, f"-runs={shard['runs']}", f"-seed={shard['fseed']}",
-               "-max_len=512", f"-max_total_time={budget}", "-rss_limit_mb=6000", "-timeout=100", corpus]
+               "-max_len=512", f"-max_total_time={budget}", "-rss_limit_mb=6000", "-timeout=100", f"-artifact_prefix={work}{os.sep}", corpus]
         p = subprocess.run(cmd, cwd=env.VERIF_DIR, capture_output=True, check=False, timeout=budget + 120,
                            env={**os.environ, "PYTHONPATH": env.VERIF_DIR + os.pathsep + env.DEPS_DIR, "PYTHONHASHSEED": "0"})
         stats = {"execs": 0, "trees": 0, "findings": 0}
